@@ -1,14 +1,19 @@
 package main
 
 func init() {
-	register("T1", propMeta{Explanation: "tmp"}, func(c *Check) {
-		ruleOwnFirst(c, "C05-R1")
-		ruleWaitSet(c, "C05-R2")
-		ruleFatal(c, "C05-R6")
-		ruleTrigger(c, "C09-R1", "C10-R3")
-		ruleWatermarkWriters(c, "C09-R2")
-		ruleConsumedClosed(c, "C16-R3")
-		ruleRunOnceExit(c, "C16-R5")
-		ruleStartupCapture(c, "C03-R5")
+	register("T3", propMeta{Explanation: "tmp"}, func(c *Check) {
+		ruleReadDBILoop(c, "C01-R3", false)
+		ruleSendDump(c, "C01-R3", "C06-R4", "C01-R5")
+		ruleSendNaming(c, "C06-R5")
+		ruleReadDBIFlags(c, "C06-R6", "C20-R5")
+	})
+	register("T2", propMeta{Explanation: "tmp"}, func(c *Check) {
+		ruleCaptureBeforeProject(c, "C03-R1")
+		ruleWatermarkAtomic(c, "C03-R2")
+		ruleNativeWrites(c, "C03-R4")
+		ruleStoreOrFail(c, "C05-R4", "C05-R5", "C12-R7")
+		ruleOneTxn(c, "C06-R1", fnSendOnce, fnSendTxn, []string{fnReadDBI, fnMainToSh, "lmdbenv.ReadDBINames"})
+		ruleOneTxn(c, "C18-R1", fnLoadOnce, fnLoadTxn, []string{fnMainToSh, fnShToMain, fnStratUpd, "lmdbenv.DBIExists", "(*lmdb.Txn).OpenDBI"})
+		ruleErrFlow(c, "C18-R2", fnLoadTxn, fnMainToSh, fnShToMain, fnStratUpd, fnIterUpd, fnIterUpd+"$1", fnEmptyPut, "lmdbenv/strategy.doPut", "lmdbenv/strategy.setNewVal", "lmdbenv/strategy.iterBoth", "syncer.(*NativeIterator).Next", fnReadDBI)
 	})
 }
